@@ -2,7 +2,7 @@ SPECIFICATION Spec
 CONSTANTS
   Classes <- Classes4
   Outs <- OutsC03
-  Durs = {0, 1}
+  Durs = {1}
   Rets <- RetsOne
   Advs <- AdvsExact
   Decs <- DecsAll
@@ -12,10 +12,7 @@ CONSTANTS
   RunGaps <- GapsNone
   NRuns = 1
   Configs <- ConfigsC03
-  RecordHist = FALSE
+  RecordHist = TRUE
 INVARIANT NoViolation
-INVARIANT AttemptsBounded
-INVARIANT InvokeWithinDeadline
-INVARIANT SleepWithinRemaining
-INVARIANT DeliveriesRelated
+INVARIANT ExportBehaviours
 CHECK_DEADLOCK FALSE
